@@ -33,7 +33,7 @@ CHECKS = {
         text=('Theorems C03_provider_conserves / C03_provider_frames / C03_provider_events (the provider model as a whole: no byte '
               'lost, duplicated or reordered along any script; the byte strings handed to the PDU decoders are the PS3.8 frames of '
               'the delivered content whatever the cuts; PDU events arise only from them), C03_conversation (any list of emitted '
-              'PDUs, any segmentation: recognised as exactly those PDUs, each decoding to its value) and C03_framing (Coq, no axioms): for EVERY list of segments of EVERY byte stream the frames the '
+              'PDUs, any segmentation: recognised as exactly those PDUs, each decoding to its value) C03_idle_iteration_invisible / C03_same_up_to_idle_iterations / C03_idle_iteration_concrete / C03_idle_insertion_invisible (iterations in which nothing arrives change nothing and emit nothing, on the control model and on the concrete loop: histories that differ only in them have the same outputs) and C03_framing (Coq, no axioms): for EVERY list of segments of EVERY byte stream the frames the '
               'provider\'s buffer discipline recognises, and the leftover, are those of the whole stream (induction on the '
               'segment list over a prefix-monotonicity lemma for frame extraction), so no byte is lost, duplicated or '
               'reordered whatever the segmentation. The provider-level claim (same indications / replies) is carried by '
@@ -119,7 +119,10 @@ CHECKS = {
         design_ref='DESIGN.md section 6, C09',
         note=COMMON_NOTE),
     'C10': dict(
-        text=('Theorems C10_negotiation, C10_every_message_within (Coq, no axioms): for ALL pairs of configured maxima '
+        text=('Theorems C10_negotiation, C10_every_message_within, C10_both_directions and, on the PDU values themselves, C10_on_pdus, '
+              'C10_acceptor_finds_announcement, C10_announcement_in_place, C10_requestor_finds_announcement, C10_nothing_announced, '
+              'C10_library_to_library (the Maximum Length sub-item is found wherever it stands among the user-information sub-items; '
+              'accept / _request on PDUs compute the abstract negotiation) (Coq, no axioms): for ALL pairs of configured maxima '
               '(0 or >= 7) each side announces at most what it accepts, each side\'s sending limit is within the peer\'s '
               'announcement (0 restricts nothing), and with that limit EVERY message of any size is sent completely with '
               'every P-DATA-TF within the announcement (composition with C06). Tie: real requester + acceptor over the '
@@ -195,11 +198,13 @@ CHECKS = {
         design_ref='DESIGN.md section 6, C16', note=COMMON_NOTE + ' The service callables run on a real Association object whose provider is a stub (harness/svc_driver.py); handlers, sub-associations and the incoming message queue are scripted.'),
     'C17': dict(
         text=('Theorems C17_echo, C17_store, C17_find, C17_move, C17_n_action, C17_n_event_report, C17_get_user_store_response, '
-              'C17_every_request_answered (Coq, '
+              'C17_every_request_answered, and for the dispatch in AssociationAcceptor._loop C17_served_on_arrival_context, C17_served_iff, '
+              'C17_same_class_on_several_contexts, C17_served_context_was_accepted (Coq, '
               'no axioms): for EVERY request (all message ids, UIDs, context ids) and every handler outcome the provider '
               'models answer on the request\'s context with its message id, SOP class (and instance), the matching response '
               'type and the handler\'s status or the documented failure status. Tie: every provider callable of sopclass.py '
-              'on scripted requests: model responses = decoded transmitted responses, plus the correlation oracle.'),
+              'on scripted requests: model responses = decoded transmitted responses, plus the correlation oracle; requests through the real '
+              'accept() + _loop() with every class accepted on several contexts: contexts handed to the services = Model.Dispatch (disp_corr, disp_spec).'),
         technique='Coq proof (per-provider lemmas over all requests/outcomes) + correspondence on decoded transmitted responses',
         design_ref='DESIGN.md section 6, C17', note=COMMON_NOTE + ' The service callables run on a real Association object whose provider is a stub (harness/svc_driver.py); handlers, sub-associations and the incoming message queue are scripted.'),
     'C19': dict(
